@@ -1221,6 +1221,12 @@ class Interp:
             return VBool(t)
         if ty == "float":
             return VFloat(z3.Real(st.fresh_name(hint)))
+        if ty == "intseq":
+            # immutable sequence of integers (specification-level lists, e.g. ghost histories of identities)
+            t = st.fresh_seq(hint)
+            st.inputs.append(dict(name=hint, kind="seq", term=t, pytype="list"))
+            st.assume(smt.slen(t) >= 0)
+            return VSeq([Seg("A", t, smt.slen(t))], "list")
         if ty in ("bytes", "str", "bytearray"):
             t = st.fresh_seq(hint)
             st.inputs.append(dict(name=hint, kind="seq", term=t, pytype=ty))
